@@ -130,32 +130,47 @@ Proof.
 Qed.
 
 (* C18: the tag determines inode, length and modification time, and vice versa *)
+Lemma sign_hex_no58 m n : ~ In 58 (mtime_sign m ++ hex n).
+Proof.
+  rewrite in_app_iff. intros [H|H]; [|revert H; apply hex_no; reflexivity].
+  unfold mtime_sign in H. destruct (f_mtime_neg m); [destruct H as [H|[]]; discriminate H|contradiction].
+Qed.
+Lemma sign_hex_inj m m' n n' : mtime_sign m ++ hex n = mtime_sign m' ++ hex n' -> f_mtime_neg m = f_mtime_neg m' /\ n = n'.
+Proof.
+  unfold mtime_sign. destruct (f_mtime_neg m), (f_mtime_neg m'); cbn [app]; intros H.
+  - inversion H as [H1]. apply hex_inj in H1. auto.
+  - exfalso. apply (hex_no 45 n'); [reflexivity|]. rewrite <- H. now left.
+  - exfalso. apply (hex_no 45 n); [reflexivity|]. rewrite H. now left.
+  - apply hex_inj in H. auto.
+Qed.
 Theorem etag_injective m m' : crf_etag m = crf_etag m' <->
-  (f_ino m = f_ino m' /\ f_len m = f_len m' /\ f_mtime_ns m = f_mtime_ns m').
+  (f_ino m = f_ino m' /\ f_len m = f_len m' /\ f_mtime_ns m = f_mtime_ns m' /\ f_mtime_neg m = f_mtime_neg m').
 Proof.
   split.
   - unfold crf_etag. cbn [app]. intros H. inversion H as [H1]. clear H.
     apply app_sep_inj in H1; try (apply hex_no; reflexivity). destruct H1 as [E1 H2].
     apply app_sep_inj in H2; try (apply hex_no; reflexivity). destruct H2 as [E2 H3].
-    apply app_sep_inj in H3; try (apply hex_no; reflexivity). destruct H3 as [E3 H4].
+    apply app_sep_inj in H3; try apply sign_hex_no58. destruct H3 as [E3 H4].
     apply app_inj_tail in H4. destruct H4 as [E4 _].
-    apply hex_inj in E1, E2, E3, E4. repeat split; try assumption.
+    apply hex_inj in E1, E2, E4. apply sign_hex_inj in E3. destruct E3 as [En E3]. repeat split; try assumption.
     pose proof (N.div_mod' (f_mtime_ns m) NSEC). pose proof (N.div_mod' (f_mtime_ns m') NSEC). lia.
-  - intros (E1 & E2 & E3). unfold crf_etag. now rewrite E1, E2, E3.
+  - intros (E1 & E2 & E3 & E4). unfold crf_etag, mtime_sign. now rewrite E1, E2, E3, E4.
 Qed.
 
 (* ... and is a syntactically valid strong entity-tag: DQUOTE, characters without DQUOTE, DQUOTE *)
 Theorem etag_is_strong_tag m : exists opaque, crf_etag m = [34] ++ opaque ++ [34] /\ ~ In 34 opaque.
 Proof.
-  exists (hex (f_ino m) ++ [58] ++ hex (f_len m) ++ [58] ++ hex (f_mtime_ns m / NSEC) ++ [58] ++ hex (f_mtime_ns m mod NSEC)).
+  exists (hex (f_ino m) ++ [58] ++ hex (f_len m) ++ [58] ++ (mtime_sign m ++ hex (f_mtime_ns m / NSEC)) ++ [58] ++ hex (f_mtime_ns m mod NSEC)).
   split.
   - unfold crf_etag. rewrite <- !app_assoc. reflexivity.
   - assert (Hh : forall n, ~ In 34 (hex n)) by (intros n; apply hex_no; reflexivity).
+    assert (Hs : ~ In 34 (mtime_sign m)) by (unfold mtime_sign; destruct (f_mtime_neg m); cbn; [intros [H|[]]; discriminate H|intros []]).
     rewrite !in_app_iff. cbn [In]. intros H.
-    destruct H as [H|[[H|[]]|[H|[[H|[]]|[H|[[H|[]]|H]]]]]]; try discriminate H; eapply Hh; exact H.
+    destruct H as [H|[[H|[]]|[H|[[H|[]]|[[H|H]|[[H|[]]|H]]]]]]; try discriminate H; try (eapply Hh; exact H). exact (Hs H).
 Qed.
 
 (* construction refuses anything but a regular file, and captures length and mtime as they were *)
 Theorem crf_new_spec m : (f_is_file m = false -> crf_new m = None) /\
-  (f_is_file m = true -> exists e, crf_new m = Some e /\ crf_len e = f_len m /\ crf_last_modified e = f_mtime_ns m).
+  (f_is_file m = true -> exists e, crf_new m = Some e /\ crf_len e = f_len m /\ crf_last_modified e = f_mtime_ns m /\
+                         crf_last_modified_neg e = f_mtime_neg m).
 Proof. unfold crf_new. destruct (f_is_file m); split; intros H; try discriminate; eauto. Qed.
